@@ -466,8 +466,12 @@ class Table(JupyterMixin):
                 ]
                 flexible_width = max_width - sum(fixed_widths)
                 flex_widths = ratio_distribute(flexible_width, ratios, flex_minimum)
-                # A trailing zero-ratio column is handed what is left: negative when there is no room
-                flex_widths = [max(0, width) for width in flex_widths]
+                # A zero-ratio column is handed what is left (nothing, or less, when there is no room):
+                # it keeps its minimum, like every other flexible column
+                flex_widths = [
+                    max(minimum, width)
+                    for minimum, width in zip(flex_minimum, flex_widths)
+                ]
                 iter_flex_widths = iter(flex_widths)
                 for index, column in enumerate(columns):
                     if column.flexible:
